@@ -410,6 +410,9 @@ func (d *V1) Apply(op model.Op) (res model.Result) {
 	case "Put":
 		in := &dynamodb.PutItemInput{TableName: aws.String(op.Table), Item: ToV1Item(op.Item),
 			ConditionExpression: strPtrOrNil(op.Cond), ExpressionAttributeNames: v1Names(op.Names), ExpressionAttributeValues: ToV1Item(op.Values)}
+		if op.ReturnValues != "" {
+			in.ReturnValues = aws.String(op.ReturnValues)
+		}
 		_, err := c.PutItem(in)
 		if err != nil {
 			return fail(err)
@@ -418,6 +421,9 @@ func (d *V1) Apply(op model.Op) (res model.Result) {
 	case "Update":
 		in := &dynamodb.UpdateItemInput{TableName: aws.String(op.Table), Key: ToV1Item(op.Key), UpdateExpression: aws.String(op.Update),
 			ConditionExpression: strPtrOrNil(op.Cond), ExpressionAttributeNames: v1Names(op.Names), ExpressionAttributeValues: ToV1Item(op.Values)}
+		if op.ReturnValues != "" {
+			in.ReturnValues = aws.String(op.ReturnValues)
+		}
 		out, err := c.UpdateItem(in)
 		if err != nil {
 			return fail(err)
@@ -428,6 +434,9 @@ func (d *V1) Apply(op model.Op) (res model.Result) {
 			ConditionExpression: strPtrOrNil(op.Cond), ExpressionAttributeNames: v1Names(op.Names), ExpressionAttributeValues: ToV1Item(op.Values)}
 		if op.ReturnOld {
 			in.ReturnValues = aws.String("ALL_OLD")
+		}
+		if op.ReturnValues != "" {
+			in.ReturnValues = aws.String(op.ReturnValues)
 		}
 		out, err := c.DeleteItem(in)
 		if err != nil {
